@@ -628,6 +628,7 @@ pub fn hash_script_data(
 }
 
 // wasm-bindgen can't accept Option without clearing memory, so we avoid exposing this in WASM
+#[allow(unused_variables)]
 pub fn internal_get_implicit_input(
     withdrawals: &Option<Withdrawals>,
     certs: &Option<Certificates>,
@@ -656,7 +657,7 @@ pub fn internal_get_implicit_input(
                         acc.checked_add(&key_deposit)
                     }
                 }
-                CertificateEnum::PoolRetirement(_) => acc.checked_add(&pool_deposit),
+                // a pool deposit is refunded at the epoch boundary, not inside the retiring transaction
                 CertificateEnum::DRepDeregistration(cert) => acc.checked_add(&cert.coin),
                 _ => Ok(acc),
             })?,
